@@ -102,6 +102,12 @@ impl tx3_tir::compile::Compiler for Compiler {
     }
 
     fn reduce_op(&self, op: Self::CompilerOp) -> Result<Self::Expression, ReduceError> {
+        use tx3_tir::reduce::{Apply as _, Composite as _};
+
+        // operands may still carry already-applied arguments (e.g. `EvalParam(Set(..))`) when
+        // this runs before a reduction pass, so bring them to their simplest form first
+        let op = op.try_map_components(|x| x.reduce())?;
+
         match op {
             tir::CompilerOp::BuildScriptAddress(x) => {
                 let hash: primitives::Hash<28> = coercion::expr_into_hash(&x)?;
